@@ -474,7 +474,30 @@ def rule_port_widths(run):
     run.end()
 
 
-RULES = [rule_interface, rule_port_map, rule_templates, rule_library_order, rule_defaults, rule_shared, rule_registration, rule_idset, rule_usage, rule_inherit_copy, rule_names, rule_views, rule_port_widths]
+def rule_empty_interface(run):
+    run.begin(
+        "C12.i",
+        "an entity without ports is still legal VHDL: no empty `port ( );` clause in the declaration, and the instantiation "
+        "statement - which is normally terminated by the `);` of its port map - gets its own `;` when there is no map",
+        floor=2,
+    )
+    vh = run.idx.mod("cohdl/_compiler/backend/vhdl/_vhdl_repr.py")
+    f = vh.func("Entity._entity_declaration")
+    uses = [c for c in ast.walk(f.node) if isinstance(c, ast.Call) and dotted(c.func) == "self._port_map"]
+    if not uses:
+        raise AnalysisError("Entity._entity_declaration: port clause not found")
+    for c in uses:
+        cond = [a for a in vh.parents.ancestors(c) if isinstance(a, (ast.IfExp, ast.If)) and "_ports" in src(a.test)]
+        run.ob(bool(cond), "vhdl.Entity._entity_declaration", file=vh.rel, line=c.lineno, detail="port-clause-only-with-ports", expected="the port clause is emitted only if the entity has ports",
+               found="ok" if cond else "unconditional: an entity without ports is declared with `port ( );`")
+    w = vh.func("EntityInst.write")
+    term = [e for e in ast.walk(w.node) if isinstance(e, ast.IfExp) and ((isinstance(e.body, ast.Constant) and e.body.value == ";") or (isinstance(e.orelse, ast.Constant) and e.orelse.value == ";")) and "len(" in src(e.test)]
+    run.ob(bool(term), "vhdl.EntityInst.write", file=vh.rel, line=w.node.lineno, detail="statement-terminated-without-maps", expected="`;` appended to the instantiation when neither generic map nor port map is emitted",
+           found="ok" if term else "no terminator: `comp: entity work.X(arch_X)` without `;` for an entity without ports")
+    run.end()
+
+
+RULES = [rule_interface, rule_port_map, rule_templates, rule_library_order, rule_defaults, rule_shared, rule_registration, rule_idset, rule_usage, rule_inherit_copy, rule_names, rule_views, rule_port_widths, rule_empty_interface]
 LEVEL = "other"
 EXPLANATION = (
     "Structural half of 'instantiating equals inlining', for all hierarchies: the emitted interface (declared ports, "
